@@ -342,7 +342,7 @@ def gen_mut_histories(rng, tier):
 # (integral / floating / Integer / ruint storage share the special members textually); the other instantiations get the directed and
 # the random histories only
 NO_EXHAUSTIVE = {"Modular<uint32_t>", "Modular<int64_t>", "Modular<uint64_t>", "Modular<float>", "Modular<int8_t>", "Modular<uint8_t>",
-                 "Modular<int16_t>", "Modular<uint16_t>"}
+                 "Modular<int16_t>", "Modular<uint16_t>", "GFqDom<int32_t>", "ModularExtended<float>"}      # (same template as the int64_t / double instantiation)
 
 
 def gen_histories(rng, tier, exhaustive=True):
@@ -350,7 +350,7 @@ def gen_histories(rng, tier, exhaustive=True):
     for pa, pb, pc, pd in ((0, 1, 2, 3), (1, 0, 3, 2)) + (((2, 3, 0, 1),) if tier != "quick" else ()):
         for h in DIRECTED:
             hs.append(h.replace("A", str(pa)).replace("B", str(pb)).replace("C", str(pc)).replace("D", str(pd)))
-    nrand = 40 if tier == "quick" else 1500
+    nrand = 40 if tier == "quick" else 1000
     for _ in range(nrand):
         live, h = {}, []
         for _ in range(rng.range(3, 8 if tier == "quick" else 10)):
@@ -835,11 +835,13 @@ def main(tier, replay=None):
                 chk.notes.append("%s: %s" % (d["name"], n))
     run_histories(chk, rng, tier)
     chk.cov["rule"] = ("per class: directed histories (two/three objects of different parameters alive at once, copy survives the original and vice versa, "
-                       "assignment in both directions, self-assignment, assignment from an own copy, rotation through a temporary) x 3 parameter permutations "
-                       "+ seeded random valid histories of 3-8 events over 4 slots and 4 parameter sets (thorough: + every valid history of <= 5 events over "
-                       "3 slots / 2 parameter sets); after EVERY event the probe (all ring operations and call forms on 8 x 4 operand pairs, init/convert "
-                       "overloads, constants) of every live object is compared with its lineage's reference; non-trivial = the history copies/assigns or has >= 2 objects; "
-                       "distinct = (class, history)")
+                       "assignment in both directions, self-assignment, assignment from an own copy, rotation through a temporary) x 2-3 parameter permutations "
+                       "+ seeded random valid histories of 3-8 events over 4 slots and 4 parameter sets + constructor-overload histories (several objects of different "
+                       "parameters through EVERY constructor overload in both orders, overload mixed with the usual constructor and with other overloads, the same parameter "
+                       "set through two overloads assigned) + mutate histories for the classes with an in-place mutator (thorough: + every valid history of <= 5 events over "
+                       "3 slots / 2 parameter sets, for one instantiation per template family); after EVERY event the probe (all call forms: call_forms_per_probe) of every live "
+                       "object is compared with its lineage's reference, with the same construction in an empty process when the construction is deterministic, and with the "
+                       "python oracles (vecval, pf); non-trivial = the history copies/assigns/mutates or has >= 2 objects; distinct = (class, history)")
     if len(chk.broken) > 20:
         chk.broken = chk.broken[:20] + [{"what": "... %d more" % (len(chk.broken) - 20), "detail": ""}]
     return chk.finish()
